@@ -162,6 +162,7 @@ def install(cfg):
     install_numbers(cfg)
     install_jwe(cfg)
     install_serialization(cfg)
+    install_rsa_numbers(cfg)
 
 
 def parse_simple_class_pattern(pat):
@@ -405,7 +406,12 @@ def install_numbers(cfg):
         d = EC_d(sk)
         S.pow2_facts(interp.ctx, z3.IntVal(8 * ((bits + 7) // 8)))
         interp.ctx.axiom(z3.And(d > 0, d < S.Pow2(z3.IntVal(8 * ((bits + 7) // 8)))), "EC private value is in [1, n-1]")
-        return Foreign("ec_privnum", private_value=SVal(mk_int(d)), public_numbers=ec_pubnum(interp, Pub(sk), k.f["curve"]))
+        pn = ec_pubnum(interp, Pub(sk), k.f["curve"])
+        matches = z3.Function("ECPrivMatches", S_, I_, I_, I_, B_)
+        interp.ctx.axiom(z3.And(matches(z3.StringVal(k.f["curve"]), d, EC_x(Pub(sk)), EC_y(Pub(sk))),
+                                ECPrivFrom(z3.StringVal(k.f["curve"]), d) == sk),
+                         "the private value of a key matches its public point; private_numbers(k).private_key() = k")
+        return Foreign("ec_privnum", private_value=SVal(mk_int(d)), public_numbers=pn)
     fm[("ec_priv", "private_numbers")] = ec_privnum
 
     for nm, ln in OKP_LEN.items():
@@ -916,3 +922,60 @@ def install_serialization(cfg):
             fm[(kd + "_pub", "public_bytes")] = pub_bytes
         if (kd + "_priv", "private_bytes") not in fm:
             fm[(kd + "_priv", "private_bytes")] = priv_bytes
+
+
+def install_rsa_numbers(cfg):
+    fm = cfg.foreign_methods
+    RSAPubFrom = z3.Function("RSAPubFrom", I_, I_, I_)
+    RSAPrivFrom = z3.Function("RSAPrivFrom", I_, I_, I_, I_)
+    RSAConsistent = z3.Function("RSAConsistent", I_, I_, I_, I_, I_, I_, I_, I_, B_)
+
+    def mk_pubnum(interp, e, n):
+        for v in (e, n):
+            if interp.tag(v) not in ("vint", "vbool"):
+                interp.raise_(TypeError, "RSAPublicNumbers arguments must be integers")
+        return Foreign("rsa_pubnum", e=e, n=n, pk=None)
+    cfg.class_hooks[_rsa.RSAPublicNumbers] = mk_pubnum
+
+    def pubnum_public_key(interp, o, a, kw):
+        if o.f.get("pk") is not None:
+            return mk_key("rsa_pub", o.f["pk"], bits=z3.IntVal(2048))
+        nt, et = interp.int_term(o.f["n"]), interp.int_term(o.f["e"])
+        if not interp.ctx.branch(z3.And(et >= 3, nt >= 3, et % 2 == 1)):
+            interp.raise_(ValueError, "invalid RSA public numbers")
+        ident = RSAPubFrom(nt, et)
+        interp.ctx.axiom(z3.And(RSA_n(ident) == nt, RSA_e(ident) == et), "public_numbers(numbers.public_key()) = numbers")
+        return mk_key("rsa_pub", ident, bits=S.BitLen(nt))
+    fm[("rsa_pubnum", "public_key")] = pubnum_public_key
+    cfg.foreign_attrs[("rsa_pubnum", "n")] = lambda interp, o: o.f["n"]
+    cfg.foreign_attrs[("rsa_pubnum", "e")] = lambda interp, o: o.f["e"]
+
+    def mk_privnum(interp, p=None, q=None, d=None, dmp1=None, dmq1=None, iqmp=None, public_numbers=None):
+        for v in (p, q, d, dmp1, dmq1, iqmp):
+            if interp.tag(v) not in ("vint", "vbool"):
+                interp.raise_(TypeError, "RSAPrivateNumbers arguments must be integers")
+        return Foreign("rsa_privnum", p=p, q=q, d=d, dmp1=dmp1, dmq1=dmq1, iqmp=iqmp, public_numbers=public_numbers)
+    cfg.class_hooks[_rsa.RSAPrivateNumbers] = mk_privnum
+
+    def privnum_private_key(interp, o, a, kw):
+        pn = o.f["public_numbers"]
+        ts = [interp.int_term(o.f[k]) for k in ("d", "p", "q", "dmp1", "dmq1", "iqmp")] + [interp.int_term(pn.f["n"]), interp.int_term(pn.f["e"])]
+        if not interp.ctx.branch(RSAConsistent(*ts)):
+            interp.raise_(ValueError, "invalid RSA private numbers")
+        sk = RSAPrivFrom(ts[0], ts[6], ts[7])
+        facts = [Pub(sk) == RSAPubFrom(ts[6], ts[7]), RSA_n(Pub(sk)) == ts[6], RSA_e(Pub(sk)) == ts[7]]
+        for nm, t in zip(("d", "p", "q", "dmp1", "dmq1", "iqmp"), ts[:6]):
+            facts.append(RSA_priv[nm](sk) == t)
+        interp.ctx.axiom(z3.And(*facts), "private_numbers(numbers.private_key()) = numbers")
+        return mk_key("rsa_priv", sk, bits=S.BitLen(ts[6]))
+    fm[("rsa_privnum", "private_key")] = privnum_private_key
+
+    @cfg.stub(_rsa.rsa_recover_prime_factors)
+    def recover(interp, n, d, e):
+        c = next_cell(interp.ctx)
+        return (interp.mk("vint", z3.Int("rsa_p!%d" % c)), interp.mk("vint", z3.Int("rsa_q!%d" % c)))
+
+    for fn, nm in ((_rsa.rsa_crt_dmp1, "crt_dmp1"), (_rsa.rsa_crt_dmq1, "crt_dmq1"), (_rsa.rsa_crt_iqmp, "crt_iqmp")):
+        def crt(interp, a, b, nm=nm):
+            return interp.mk("vint", z3.Function(nm, I_, I_, I_)(interp.int_term(a), interp.int_term(b)))
+        cfg.stubs[id(fn)] = (fn, crt)
